@@ -448,4 +448,135 @@ pub proof fn lemma_pair_map_members(members: Seq<(String, AVal)>)
     }
 }
 
+
+/// attribute bytes for the first `k` elements of a set named `name`
+pub open spec fn set_prefix(name: Seq<char>, elems: Seq<AVal>, k: nat) -> Seq<u8> {
+    s1(spec_tag(elems[0])) + enc16(utf8(name).len() as u16) + utf8(name) + set_enc(elems, k)
+}
+
+/// L3: the bytes the encoder specification writes for attribute `name` = `a` (tag, name, value, additional values,
+/// collection members) make the machine add exactly the values of `a` to the attribute being read
+pub proof fn lemma_value(name: Seq<char>, a: AVal, in_coll: bool, rest: Seq<u8>, s: MState)
+    requires dom_ok(a, in_coll), state_ok(s, name),
+    ensures m_run(spec_attr_enc(name, a) + rest, s) == m_run(rest, push_top(start_attr(s, name), vals_of(a))),
+    decreases a, 0nat,
+{
+    match a {
+        AVal::Set { elems } => {
+            lemma_set(name, elems, in_coll, elems.len(), rest, s);
+            assert(elems.take(elems.len() as int) =~= elems);
+            assert(spec_attr_enc(name, a) == set_prefix(name, elems, elems.len()));
+        }
+        AVal::Coll { members } => {
+            reveal(m_value);
+            reveal(m_value_legal);
+            reveal(m_flush);
+            let n = members.len();
+            let nb = utf8(name);
+            axiom_lossy_utf8(name);
+            axiom_utf8_empty();
+            axiom_str_of(name);
+            let e = Seq::<u8>::empty();
+            // begCollection token
+            let end_tok = s1(T_ENDCOLLECTION) + enc16(0) + enc16(0);
+            let after_beg = members_enc(members, n) + (end_tok + rest);
+            assert(spec_attr_enc(name, a) + rest =~= token_r(T_BEGCOLLECTION, nb, e, after_beg));
+            lemma_token(T_BEGCOLLECTION, nb, e, after_beg, s);
+            let nm = str_of(lossy(nb));
+            let sa = start_attr(s, name);
+            let sb = m_value(s, T_BEGCOLLECTION, nm, e);
+            assert(nm@ == name);
+            assert(sa.stack.len() >= 1);
+            assert(sa.name is Some);
+            assert(sb == MState { groups: sa.groups, cur: sa.cur, name: sa.name, stack: sa.stack.push(Seq::<AVal>::empty()) });
+            // the members
+            lemma_members(members, n, end_tok + rest, sb);
+            let sm = push_top(sb, member_vals(members, n));
+            // endCollection token
+            assert(end_tok + rest =~= token_r(T_ENDCOLLECTION, e, e, rest));
+            assert(enc16(e.len() as u16) == enc16(0));
+            let en = str_of(lossy(e));
+            axiom_str_of(lossy(e));
+            assert(en@.len() == 0);
+            assert(sm.stack.len() == sa.stack.len() + 1);
+            lemma_token(T_ENDCOLLECTION, e, e, rest, sm);
+            lemma_pair_map_members(members);
+            let se = m_value(sm, T_ENDCOLLECTION, en, e);
+            let want = push_top(sa, seq![a]);
+            assert(sm.stack.last() =~= member_vals(members, n));
+            assert(sm.stack.drop_last() =~= sa.stack);
+            assert(sa.stack.last().push(a) =~= sa.stack.last() + seq![a]);
+            assert(se.stack =~~= want.stack);
+            assert(se == want);
+        }
+        _ => {
+            lemma_scalar_tag(a);
+            lemma_value_scalar(name, a, rest, s);
+        }
+    }
+}
+
+pub proof fn lemma_set(name: Seq<char>, elems: Seq<AVal>, in_coll: bool, k: nat, rest: Seq<u8>, s: MState)
+    requires
+        1 <= k <= elems.len(), state_ok(s, name),
+        forall|i: int| 0 <= i < elems.len() ==> !((#[trigger] elems[i]) is Set) && dom_ok(elems[i], in_coll),
+    ensures
+        m_run(set_prefix(name, elems, k) + rest, s) == m_run(rest, push_top(start_attr(s, name), elems.take(k as int))),
+    decreases elems, k,
+{
+    let sa = start_attr(s, name);
+    if k == 1 {
+        let e0 = elems[0];
+        assert(set_prefix(name, elems, 1) == spec_attr_enc(name, e0));
+        lemma_value(name, e0, in_coll, rest, s);
+        assert(vals_of(e0) =~= elems.take(1));
+    } else {
+        let e = elems[k - 1];
+        axiom_utf8_empty();
+        let sep = spec_attr_enc(Seq::<char>::empty(), e);
+        assert(sep =~= s1(spec_tag(e)) + enc16(0) + spec_val_enc(e));
+        assert(set_prefix(name, elems, k) + rest =~= set_prefix(name, elems, (k - 1) as nat) + (sep + rest));
+        lemma_set(name, elems, in_coll, (k - 1) as nat, sep + rest, s);
+        let sk = push_top(sa, elems.take(k - 1));
+        reveal(m_flush);
+        assert(sk.name is Some);
+        lemma_value(Seq::<char>::empty(), e, in_coll, rest, sk);
+        lemma_push_push(sa, elems.take(k - 1), vals_of(e));
+        assert(elems.take(k - 1) + vals_of(e) =~= elems.take(k as int));
+    }
+}
+
+pub proof fn lemma_members(members: Seq<(String, AVal)>, k: nat, rest: Seq<u8>, s: MState)
+    requires
+        k <= members.len(), s.stack.len() >= 2, s.name is Some,
+        forall|i: int| 0 <= i < members.len() ==> utf8((#[trigger] members[i]).0@).len() <= 0xffff && dom_ok(members[i].1, true),
+    ensures
+        m_run(members_enc(members, k) + rest, s) == m_run(rest, push_top(s, member_vals(members, k))),
+    decreases members, k,
+{
+    if k == 0 {
+        assert(members_enc(members, 0) + rest =~= rest);
+        assert(s.stack.last() + member_vals(members, 0) =~= s.stack.last());
+        assert(push_top(s, member_vals(members, 0)).stack =~~= s.stack);
+    } else {
+        let key = members[k - 1].0;
+        let v = members[k - 1].1;
+        let nmv = AVal::Text { tag: T_MEMBERNAME, s: key@ };
+        axiom_utf8_empty();
+        let none = Seq::<char>::empty();
+        let t1 = spec_attr_enc(none, nmv);
+        let t2 = spec_attr_enc(none, v);
+        assert(t1 =~= s1(T_MEMBERNAME) + enc16(0) + (enc16(utf8(key@).len() as u16) + utf8(key@)));
+        assert(t2 =~= s1(spec_tag(v)) + enc16(0) + spec_val_enc(v));
+        assert(members_enc(members, k) + rest =~= members_enc(members, (k - 1) as nat) + (t1 + (t2 + rest)));
+        lemma_members(members, (k - 1) as nat, t1 + (t2 + rest), s);
+        let s0 = push_top(s, member_vals(members, (k - 1) as nat));
+        lemma_value_scalar(none, nmv, t2 + rest, s0);
+        let s1_ = push_top(s0, seq![nmv]);
+        lemma_value(none, v, true, rest, s1_);
+        lemma_push_push(s, member_vals(members, (k - 1) as nat), seq![nmv]);
+        lemma_push_push(s, member_vals(members, (k - 1) as nat) + seq![nmv], vals_of(v));
+    }
+}
+
 } // verus!
